@@ -64,6 +64,14 @@ func runC19(r *Run, rng *Rng, thorough bool) {
 			pool = append(pool, poolTok{tok, k.id})
 		}
 	}
+	// legitimately signed COSE_Sign1 messages whose payload is not a decodable claims-set
+	// (the signer also signs other things; or text claims that are not valid UTF-8)
+	for i, pl := range [][]byte{{0x01}, []byte("hello"), {0xa1, 0x01}, nMap([2]*Node{nInt(-75010), nTstr("\xff")}).Bytes()} {
+		k := ks[i%2]
+		prot := nMap([2]*Node{nUint(1), nInt(int64(k.algs[0]))}).Bytes()
+		sig := rawSign(k, k.algs[0], sigStructureBytes(prot, pl))
+		pool = append(pool, poolTok{envelope(nBstr(prot), nMap(), nBstr(pl), nBstr(sig)), k.id})
+	}
 	for h := 0; h < nHist; h++ {
 		n := 1 + rng.Intn(30)
 		ev := &psa.Evidence{}
@@ -124,6 +132,7 @@ func runC19(r *Run, rng *Rng, thorough bool) {
 		replaced := true
 		lastSignFailed := false
 		for i, o := range ops {
+			attached := ev.Claims != nil // the property speaks of an Evidence whose claims are attached
 			st := o.exec(ev)
 			res[i] = stepString(o, st)
 			switch o.Kind {
@@ -137,7 +146,7 @@ func runC19(r *Run, rng *Rng, thorough bool) {
 				if st.res != "ok" && st.token != nil {
 					fails = append(fails, pend{"failed-op-no-token", fmt.Sprintf("step %d %s failed but returned a token", i, o.Kind)})
 				}
-				if st.res == "ok" {
+				if st.res == "ok" && attached {
 					// every issued token decodes and verifies on its own
 					e2, err := psa.DecodeEvidenceFromCOSE(append([]byte{}, st.token...))
 					if err != nil {
